@@ -114,13 +114,14 @@ def discipline_ops(o):
     return start, ops
 
 
-class C07(Prop):
+class C07(netlib.Guarded, Prop):
     ID = "C07"
     PROPS_FILE = "Props/C07.v"
     CORR_MODULE = "Prov.Corr"
     LEVEL = "translation_validation"
     MAX_WORKERS = 6
-    CASE_TIMEOUT = 120
+    CASE_TIMEOUT = netlib.GUARD_CASE_TIMEOUT      # outer guard only: a hang verdict is structural (see netlib)
+    SHARD_TIMEOUT = netlib.GUARD_SHARD_TIMEOUT
     LEVEL_TEXT = (
         "Translation validation: after every generated execution (the C04 workloads: DAGs of transformer/conditional "
         "steps, scatter/gather, dot/cartesian combinators, with and without an injected failure, under a seeded "
@@ -253,6 +254,7 @@ class C07(Prop):
 
         StreamFlowExecutor.run, BaseStep._persist_token = run, persist      # observation only; restored below
         try:
+            _recov.ENGINE_TIMEOUT = max(getattr(_recov, "ENGINE_TIMEOUT", 40), 600)   # in our worker only
             o = _recov.run_engine(c, hooks=hook)
         finally:
             StreamFlowExecutor.run, BaseStep._persist_token = o_run, o_persist
@@ -269,10 +271,17 @@ class C07(Prop):
 
     # ------------------------------------------------------------------ oracle (from the property text)
     def oracle(self, c, o):
-        if "crash" in o or "hang" in o:
-            return ("hang", f"crashed or hung: {str(o)[:300]}")
+        o = self.resolve(c, o)
+        if o is None:
+            return None                     # the wall-clock guard expired twice: no verdict
+        if "crash" in o:
+            return ("crash", f"the harness could not contain the run: {str(o)[:300]}")
+        if c["f"] == "recov" and o["ret"] == "hang":
+            # the recovery driver (b-recovery's, reused read-only) only has a wall-clock limit: not a verdict here
+            self.no_verdict += 1
+            return None
         if o["ret"] == "hang":
-            return ("hang", "run() never returned")
+            return ("hang", "run() never returned although nothing could move any more")
         if c["f"] == "recov":
             return self._oracle_recov(c, o)
         rows = {r[0]: r for r in o["tokens"]}
@@ -418,7 +427,8 @@ class C07(Prop):
         return None
 
     def coq_case(self, c, o):
-        if "crash" in o or "hang" in o or o.get("ret") == "hang":
+        o = self.resolve(c, o)
+        if o is None or "crash" in o or o.get("ret") == "hang":
             return None
         if c["f"] == "recov":
             if "tokens" not in o:
@@ -450,7 +460,11 @@ class C07(Prop):
             return True
         return sum(len(v) for v in c["inputs"].values()) * len(c["steps"]) >= 3
 
+    def extra_samples(self):
+        return [self.guard_sample()]
+
     def signature(self, c, o, clause):
+        o = self.resolve(c, o) or {}
         if c["f"] == "recov":
             return f"recov/{clause}/{c['shape']['kind']}"
         kinds = sorted({s["k"] for s in c["steps"]})
